@@ -18,10 +18,10 @@ MANIFEST = {
 
 INVARIANTS = ["C05_Gate", "C05_FailCancels"]
 PROPERTIES = ["C05_NeverRuns"]
-QUICK = ['diamond', 'chain2']
-THOROUGH = ['diamond', 'chain2', 'upd2', 'grp2', 'nest_s', 'retry_s', 'nest']
+QUICK = ['diamond', 'chain2', 'jpim_u2', 'vee2']
+THOROUGH = ['diamond', 'chain2', 'upd2', 'grp2', 'nest_s', 'retry_s', 'nest', 'jpim_u2', 'vee2', 'upd3']
 FINDINGS = []
 
 
 def run(ctx):
-    B.run_property(ctx, "C05", INVARIANTS, PROPERTIES, QUICK, THOROUGH, FINDINGS)
+    B.run_property(ctx, "C05", INVARIANTS, PROPERTIES, QUICK, THOROUGH, FINDINGS, overlap=['diamond'])
